@@ -452,6 +452,9 @@ func (Engine) Run(t *testing.T, job *simkit.Job, rng *simkit.RNG, idx int64, c *
 	o.Hash = simkit.Hash64(parts...)
 	o.Trace = append(o.Trace, fmt.Sprintf("case: tty=%v info=%q termios=%d cache=%s items=[%s]",
 		cs.cfg.TTY, cs.cfg.Info, cs.cfg.Termios, cs.cfg.Cache, strings.Join(names, " ")))
+	if cs.cfg.Stdin != StdinTTY {
+		o.Trace = append(o.Trace, "standard input: "+cs.cfg.Stdin+" (the pty stays controlling terminal, stdout and stderr)")
+	}
 	if why := cs.validate(); why != "" {
 		o.Invalid = true
 		o.Trace = append(o.Trace, "not executable: "+why)
@@ -527,12 +530,19 @@ func executeOnce(ev *environment, cs *caseSpec, o *simkit.Outcome, rep int) {
 	}
 	o.Trace = append(o.Trace, "argv: "+pl.canonArgv())
 
-	p, err := startProc(cs.cfg.TTY, ev.bin, pl.argv, childEnv(pl.dir), cs.cfg.Termios)
+	in := stdinSpec{kind: cs.cfg.Stdin}
+	if in.kind == StdinFile {
+		in.path, in.content = filepath.Join(pl.dir, "stdin.keys"), cs.stdinContent()
+	}
+	p, err := startProcStdin(cs.cfg.TTY, ev.bin, pl.argv, childEnv(pl.dir), cs.cfg.Termios, in)
 	if err != nil {
 		o.HarnessErr = err.Error()
 		return
 	}
 	o.Steps++
+	if cs.cfg.Stdin != StdinTTY {
+		o.Faults["stdin_"+cs.cfg.Stdin]++
+	}
 	harness := func(format string, a ...any) {
 		p.kill()
 		out, _, _ := p.finish()
@@ -542,6 +552,7 @@ func executeOnce(ev *environment, cs *caseSpec, o *simkit.Outcome, rep int) {
 	var (
 		started  bool // the start-up finished (one-liners shown)
 		stuck    bool // asked to leave, it never did
+		stayed   bool // its input ended and it stayed (nothing says it must leave)
 		endedHow string
 		fam      famObs // what a -one-shell scenario saw
 	)
@@ -550,6 +561,27 @@ func executeOnce(ev *environment, cs *caseSpec, o *simkit.Outcome, rep int) {
 		if p.waitFor(nil, capHarness) != wExited {
 			harness("process still running after %s", capHarness)
 			return
+		}
+	} else if cs.inputEndsByItself() {
+		// Nobody can type: the input holds the key of the exit (if any) and
+		// ends.  Whether the program gets to show its start-up before it reads
+		// that is a race nothing here depends on; a start-up fault ends it
+		// before it reads anything.
+		endedHow = cs.exitHow()
+		if exp.kind == expNormal {
+			o.Trace = append(o.Trace, "the input ends by itself ("+endedHow+"); waiting for the program to leave")
+		}
+		limit := capSelf
+		if exp.kind != expNormal {
+			limit = capHarness
+		}
+		if p.waitFor(nil, limit) != wExited {
+			if exp.kind != expNormal && !hasStarted(p.output()) {
+				harness("process neither exited nor finished start-up within %s", capHarness)
+				return
+			}
+			stayed = true
+			p.kill()
 		}
 	} else {
 		switch p.waitFor(hasStarted, capHarness) {
@@ -569,7 +601,11 @@ func executeOnce(ev *environment, cs *caseSpec, o *simkit.Outcome, rep int) {
 				return
 			}
 			if !gone {
-				stuck = true
+				if endedHow == ExitStdinEOF {
+					stayed = true
+				} else {
+					stuck = true
+				}
 				p.kill()
 			}
 		}
@@ -585,13 +621,21 @@ func executeOnce(ev *environment, cs *caseSpec, o *simkit.Outcome, rep int) {
 	shown := clipTail(pl.canon(string(out)), 1500)
 
 	// ---- the trace ----
-	if cs.cfg.TTY && cs.cfg.Info == InfoNone && !started {
+	byItself := cs.inputEndsByItself() && cs.cfg.TTY && cs.cfg.Info == InfoNone
+	if byItself && exp.kind != expNormal {
+		// a start-up fault comes before anything is read: it must not get
+		// as far as showing its start-up
+		started = hasStarted(out)
+	}
+	if cs.cfg.TTY && cs.cfg.Info == InfoNone && !started && !(byItself && exp.kind == expNormal) {
 		o.Trace = append(o.Trace, "exited before finishing start-up")
 	}
 	o.Trace = append(o.Trace, fam.trace...)
 	switch {
 	case stuck:
 		o.Trace = append(o.Trace, "exit: none by itself (killed by the harness)")
+	case stayed:
+		o.Trace = append(o.Trace, "exit: none (the end of its input did not make it leave; killed by the harness)")
 	case sig != 0:
 		o.Trace = append(o.Trace, fmt.Sprintf("exit: killed by signal %d", int(sig)))
 	default:
@@ -616,16 +660,20 @@ func executeOnce(ev *environment, cs *caseSpec, o *simkit.Outcome, rep int) {
 	}
 
 	// ---- the oracle ----
+	stdinNote := ""
+	if cs.cfg.Stdin != StdinTTY {
+		stdinNote = ", standard input redirected: " + cs.cfg.Stdin
+	}
 	foundP := func(prop, inv, what, format string, a ...any) {
 		o.Violations = append(o.Violations, simkit.Found{
 			Property: prop, Invariant: inv, Signature: exp.label + ": " + what,
 			Message: fmt.Sprintf(format, a...) + "\n  " + pl.canonArgv() +
-				fmt.Sprintf("\n  (tty=%v, termios variant %d, binary built with %s)\n  output:\n%s",
-					cs.cfg.TTY, cs.cfg.Termios, ev.goVersion, shown),
+				fmt.Sprintf("\n  (tty=%v%s, termios variant %d, binary built with %s)\n  output:\n%s",
+					cs.cfg.TTY, stdinNote, cs.cfg.Termios, ev.goVersion, shown),
 		})
 	}
 	found := func(inv, what, format string, a ...any) { foundP(Property, inv, what, format, a...) }
-	crashed := len(marks) > 0 || (sig != 0 && !stuck)
+	crashed := len(marks) > 0 || (sig != 0 && !stuck && !stayed)
 	// in every case: no crash, terminal mode restored
 	if len(marks) > 0 {
 		what := "Go panic / stack trace in the output"
@@ -633,10 +681,10 @@ func executeOnce(ev *environment, cs *caseSpec, o *simkit.Outcome, rep int) {
 			what = "Go panic / stack trace instead of an error message"
 		}
 		found("no-crash-trace", what, "the output carries the marks of a Go crash %q (exit status %d)", marks, code)
-	} else if sig != 0 && !stuck {
+	} else if sig != 0 && !stuck && !stayed {
 		found("no-crash-trace", "killed by a signal instead of exiting", "the process was killed by signal %d (%v)", int(sig), sig)
 	}
-	if cs.cfg.TTY && tdiff != "" && !stuck { // (killed by the harness, it could not restore anything)
+	if cs.cfg.TTY && tdiff != "" && !stuck && !stayed { // (killed by the harness, it could not restore anything)
 		found("termios-restored", "terminal not returned to the mode it was found in",
 			"termios after the exit differs from termios before the start: %s", tdiff)
 	}
@@ -678,7 +726,7 @@ func executeOnce(ev *environment, cs *caseSpec, o *simkit.Outcome, rep int) {
 			o.Probes["started_with_ctrli_warning"]++
 		}
 		switch {
-		case !started:
+		case !started && !byItself:
 			if !crashed {
 				found("starts-normally", "program exited during start-up although nothing was wrong",
 					"no start-up condition was unsatisfiable, yet the program exited (status %d) before finishing start-up", code)
@@ -686,6 +734,15 @@ func executeOnce(ev *environment, cs *caseSpec, o *simkit.Outcome, rep int) {
 		case isOneShell(endedHow):
 			judgeOneShell(o, endedHow, &fam, stuck, crashed, code, low, foundP)
 		case stuck || crashed:
+		case stayed:
+			// the statement does not say the end of the input ends the program
+			o.Probes["stdin_eof_not_followed_by_exit"]++
+		case byItself || endedHow == ExitStdinEOF:
+			// it left because its input was over (whatever key came before
+			// that): an exit by itself, judged above; the statement gives no
+			// exit status for it
+			o.Probes["normal_exit_"+endedHow]++
+			o.Probes[fmt.Sprintf("redirected_stdin_exit_status_%d", code)]++
 		default:
 			o.Probes["normal_exit_"+endedHow]++
 			if endedHow == ExitCtrlC || endedHow == ExitInsertCtrlC {
@@ -726,6 +783,12 @@ func endProgram(p *proc, how string, fam *famObs) (herr string, gone bool) {
 		if err := p.send([]byte{0x04}); err != nil {
 			return "typing Ctrl+D: " + err.Error(), false
 		}
+		return "", p.waitFor(nil, capSelf) == wExited
+	case ExitStdinEOF:
+		if p.stdinW == nil {
+			return "no pipe to close: the standard input is not one", false
+		}
+		p.closeStdin()
 		return "", p.waitFor(nil, capSelf) == wExited
 	}
 	return endOneShell(p, how, fam)
